@@ -67,7 +67,14 @@ func (iv *Value) ValueFor() any {
 		return f
 	case ItemTypeArray:
 		var arr []any
-		_ = json.Unmarshal([]byte(iv.ItemValue), &arr)
+		if err := json.Unmarshal([]byte(iv.ItemValue), &arr); err != nil {
+			// a byte slice is serialised as a base64 string, not as a JSON
+			// array: hand that string back instead of losing the value
+			var s string
+			if json.Unmarshal([]byte(iv.ItemValue), &s) == nil {
+				return s
+			}
+		}
 		return arr
 	case ItemTypeObject:
 		obj := map[string]any{}
